@@ -33,4 +33,12 @@ Judge(ics, c, o) ==
                         /\ o.seen = ics                                        \* their header changes reached the transport
           ELSE /\ o.log = SubSeq(ics, 1, k)                                    \* later interceptors and the transport are not invoked
                /\ o.err                                                        \* and the error is surfaced
+\* ---- a nested request: interceptor 9 (once in ics), on a request that does not carry its mark, sends a request of its own through the SAME
+\* SimpleHTTP before it returns; the nested request runs the whole chain (9 included, which does not nest again) and reaches the transport, then
+\* the outer request continues behind 9.  log: ids in invocation order, 0 = a transport hit; seen: X-Seen values at the transport, both hits.
+JudgeNested(ics, o) ==
+  LET p == CHOOSE i \in DOMAIN ics : ics[i] = 9 IN
+  /\ o.kind = "ok" /\ ~o.err
+  /\ o.log = SubSeq(ics, 1, p) \o ics \o <<0>> \o SubSeq(ics, p + 1, Len(ics)) \o <<0>>
+  /\ o.seen = ics \o ics
 =============================================================================
